@@ -16,5 +16,5 @@ print("harness:", ok2, msg2)
 sys.exit(0 if ok and ok2 else 1)
 PY
 cd lean
-lake build 2>&1 | grep -v "^warning\|^Hint\|^  \[apply\]\|^Note\|^$\|linter\|^  " | tail -20
+lake build Crng driver $(ls Crng/Props/*.lean Crng/Tie/*.lean | sed 's/\.lean$//; s#/#.#g') 2>&1 | grep -v "^warning\|^Hint\|^  \[apply\]\|^Note\|^$\|linter\|^  " | tail -20
 test -x .lake/build/bin/driver
